@@ -36,11 +36,27 @@ def run_case(case):
             out["alts"].append(pvlib.outcome(pool, lambda: cti.validate(obj, "a%d" % i, v)))
     else:
         out["alts"] = None
+    # adapt='default' inside a compound: the compiled switch returns default_value_for(the COMPOUND's trait); the
+    # model takes that value as data (field dflt of the DAdapt alternatives of the flattened compound)
+    out["d"] = patch_adapt_default(d, pvlib.outcome(pool, lambda: ct.default_value()[1])) if alts is not None else d
     out["orc"], out["re"] = pvlib.oracles(pool, d, v)
     out["venc"] = pool.enc(v)
     fv = getattr(h, "fast_validate", None) if h is not None else None
     out["fast"] = fv is not None
     return out
+
+
+def patch_adapt_default(d, dflt_outcome):
+    if dflt_outcome[0] != "Accept":
+        return d
+
+    def go(x):
+        if x[0] == "DCompound":
+            return ["DCompound", [go(a) for a in x[1]]]
+        if x[0] == "DAdapt" and x[2] == 2:
+            return x[:4] + [dflt_outcome[1]]
+        return x
+    return go(d)
 
 
 def main():
